@@ -84,7 +84,10 @@ Termcap == { V(DCS \o <<49, 43, 114>> \o HexStr(n) \o <<61>> \o HexStr(v) \o ST,
 KittyImg == { V(APC \o <<71, 105, 61>> \o Num(i) \o <<SEMI, 79, 75>> \o ST, <<Ev("kittyimg", "ok", 0, <<i, -1>>, <<>>)>>) : i \in {1, 31, 65535} }
             \cup { V(APC \o <<71, 105, 61>> \o Num(i) \o <<44, 112, 61>> \o Num(p) \o <<SEMI, 79, 75>> \o ST, <<Ev("kittyimg", "ok", 0, <<i, p>>, <<>>)>>) : i \in {1, 31}, p \in {1, 65536, 65537} }
             \cup { V(APC \o <<71, 105, 61>> \o Num(7) \o <<44, 112, 61>> \o Num(3) \o <<SEMI>> \o msg \o ST, <<Ev("kittyimg", "error", 0, <<7, 3>>, msg)>>)
-                   : msg \in { <<69, 78, 79, 69, 78, 84, 58, 120>>, <<69, 73, 78, 86, 65, 76>> } }
+                   : msg \in { <<69, 78, 79, 69, 78, 84, 58, 120>>, <<69, 73, 78, 86, 65, 76>>,
+                             \* free text may contain the field separator: "EINVAL:bad key; expected a=T", "OK;x", ";"
+                             <<69, 73, 78, 86, 65, 76, 58, 98, 97, 100, 32, 107, 101, 121, 59, 32, 101, 120, 112, 101, 99, 116, 101, 100, 32, 97, 61, 84>>,
+                             <<79, 75, 59, 120>>, <<59>>, <<69, 59, 59, 66, 59>> } }
 PasteTexts == { <<>>, <<97>>, <<104, 105, 32, 49, 10, 9>>, <<195, 169, 226, 130, 172>>, <<91, 50, 48, 49, 126>> }
 Paste == { V(CSI \o <<50, 48, 48, 126>> \o t \o CSI \o <<50, 48, 49, 126>>, <<Ev("paste", "", 0, <<>>, t)>>) : t \in PasteTexts }
 \* ---- UTF-8 text: every scalar class boundary (printable ones decode as character keys)
